@@ -1759,6 +1759,320 @@ def wl_dtypes_and_aspect(ctx, rng):
     fttools.czt.clear()
 
 
+# ---- hardening pass 3: classes G (magnitudes, units), H (special values), I (sizes) --------------------------------------
+RULE = RULE + ('.  Hardening pass 3 -- class G: every route (four engine calls, focus / unfocus, both fixed-sampling wrappers in function and '
+               'Wavefront form) on fields of magnitude 1e-12 ... 1e12 (textbook sum at that magnitude, and homogeneity f(s a) = s f(a)); the wrappers in '
+               'other consistent units (metres everywhere, microns everywhere, nm in the focal plane, pupil x 1024, ...).  Class H: Q EXACTLY an integer '
+               '(1, 2, 3) with the output sample count equal to the input shape or to Q times it and every shift pattern (x only, y only, both, none; '
+               'int / fractional; zero as int 0 / float 0.0) at engine level (both engines, both directions, sizes 1 ... 16 and primes) and through the '
+               'wrappers at an output spacing that is exactly the FFT spacing (the library\'s own Q_for_sampling returns the integer exactly); without a '
+               'shift the three routes (padded FFT, mdft, czt) must agree as complex arrays.  Class I: thin arrays (1 x n, n x 1, 2 x n, n x 3) whose '
+               'long axis has 65 ... 1024 samples (prime, awkward, powers of two) through every route, incl. band-complete pairs n -> M with M / n within '
+               '1e-3 of an integer, with and without one-axis shifts')
+ASSUMPTIONS = ASSUMPTIONS + [
+    'homogeneity is compared at 1e-11 (single precision 1e-3) of max|s f(a)| (observed <= 4 eps); unit invariance and route agreement at the '
+    'conditioning tolerance of the call (rtol_for) relative to the output bound',
+    'exactly-special geometries are produced with the library\'s own expressions so that floating-point equality is hit on purpose; draws for which the '
+    'library\'s Q is not exactly the integer are excluded and counted',
+]
+REQUIRED = REQUIRED + ['scale.homogeneity', 'scale.unit-invariance', 'special.integer-Q-routes-agree', 'special.fft-grid-with-shift', 'size.large-or-prime']
+
+
+def _typed_shift(s, unit):
+    """(sx, sy) in samples -> output units; an int 0 stays an int 0, a float 0.0 a float 0.0."""
+    return tuple((v * unit if v != 0 else v) for v in s)
+
+
+def _engine(method, fwd):
+    from prysm import fttools
+    ex = fttools.mdft if method == 'mdft' else fttools.czt
+    return getattr(ex, {('mdft', True): 'dft2', ('mdft', False): 'idft2', ('czt', True): 'czt2', ('czt', False): 'iczt2'}[(method, fwd)])
+
+
+def _law_close(ctx, monitor, got, ref, rtol, scale, key, what, desc):
+    ctx.observe(monitor)
+    got, ref = np.asarray(got), np.asarray(ref)
+    err = float(np.max(np.abs(got - ref))) if (got.shape == ref.shape and got.size and np.isfinite(got).all()) else (0.0 if got.shape == ref.shape and not got.size else float('inf'))
+    if not err <= rtol * scale:
+        ctx.violation(key, what, desc, err=err, tol=rtol * scale, scale=scale)
+        return False
+    if rtol * scale > 0:
+        STATS[monitor] = max(STATS.get(monitor, 0.0), err / (rtol * scale))
+    return True
+
+
+def wl_scales_units(ctx, rng):
+    """Class G.  scale: f(s a) for s = 1e-12 ... 1e12 through every route -- the contracts judge the scaled call against the textbook
+    sum (their error scale is ||s a||_1), the homogeneity law compares it with s f(a).  units: the fixed-sampling wrappers in another
+    consistent unit system (contract: physical Q; law: equal fields)."""
+    from prysm import fttools, propagation as P
+    from .. import propforms as PF
+    from ..util import precision
+    routes = ('dft2', 'idft2', 'czt2', 'iczt2', 'focus', 'unfocus', 'focus_fixed_sampling', 'unfocus_fixed_sampling')
+    k = -1
+    for rep in range(ctx.pick(5, 1000)):
+        for route in routes:
+            for s in PF.SCALES:
+                k += 1
+                if not ctx.mine(k):
+                    continue
+                bits = 32 if (k // ctx.nshards) % 5 == 4 else 64
+                single = bits == 32
+                m, n = (int(v) for v in rng.integers(1, ctx.pick(10, 24), 2))
+                if rng.random() < 0.5:
+                    n = m
+                if m * n == 1:
+                    m = n = 3
+                M = int(rng.integers(2, ctx.pick(12, 28)))
+                out = (M, M) if m == n else (M, int(rng.integers(2, ctx.pick(12, 28))))
+                seed = ctx.subseed(rng)
+                cplx = bool(rng.integers(2))
+                a = make_input((m, n), cplx, seed, bits=bits)
+                sa = (a * s).astype(a.dtype)
+                sk = SHIFT_KINDS[int(rng.integers(3))]
+                sh = pick_shift(sk, rng)
+                Q = pick_Q(Q_KINDS[int(rng.integers(3))], rng)
+                desc = {'wl': 'scales', 'route': route, 's': s, 'in': (m, n), 'out': out, 'Q': Q, 'shift': sh, 'precision': bits, 'seed': seed,
+                        'class': f'scales:{route}:{PF.scale_class(s)}:{shape_kind((m, n))}:sh{sk}:p{bits}'}
+                ctx.case(desc, nontrivial=nontrivial(a))
+                if not nontrivial(a):
+                    continue
+                CUR['desc'] = desc
+                try:
+                    with precision(bits), ctx.guard(f'C01/{route}/scale:{PF.scale_class(s)}', desc, what=f'{route} of a field of magnitude {s:g}'):
+                        if route in ('dft2', 'idft2', 'czt2', 'iczt2'):
+                            f = _engine('mdft' if 'dft' in route else 'czt', route in ('dft2', 'czt2'))
+                            r1, rs = np.array(f(a, Q, out, sh), copy=True), f(sa, Q, out, sh)
+                        elif route in ('focus', 'unfocus'):
+                            Qf = [1, 2, 1.5, 3][int(rng.integers(4))]
+                            f = getattr(P, route)
+                            r1, rs = np.array(f(a, Qf), copy=True), (f(sa, Qf) if k % 2 else
+                                                                   getattr(P.Wavefront(sa.astype(np.complex64 if single else complex), 0.55, 0.1, space='pupil' if route == 'focus' else 'psf'), route)(100., Q=Qf).data)
+                        else:
+                            wvl, efl, dxi = 0.55, 100., [0.1, 0.05, 1.0][int(rng.integers(3))]
+                            dxo = wvl * efl / (m * dxi) / [1, 2, 1.5, 3.3][int(rng.integers(4))]
+                            method = ('mdft', 'czt')[int(rng.integers(2))]
+                            shift = (sh[0] * dxo, sh[1] * dxo)
+                            f = getattr(P, route)
+                            r1 = np.array(f(a, dxi, efl, wvl, dxo, out, shift=shift, method=method), copy=True)
+                            if k % 2:
+                                rs = f(sa, dxi, efl, wvl, dxo, out, shift=shift, method=method)
+                            else:
+                                w = P.Wavefront(sa, wvl, dxi, space='pupil' if route.startswith('focus') else 'psf')
+                                rs = getattr(w, route)(efl, dxo, out, shift=shift, method=method).data
+                        ref = s * r1
+                        _law_close(ctx, 'scale.homogeneity', rs, ref, 1e-3 if single else 1e-11, float(np.max(np.abs(ref))) if ref.size else 0.0,
+                                   f'C01/{route}/scale:{PF.scale_class(s)}/not-homogeneous',
+                                   f'{route} is linear, but f(s a) != s f(a) for a field of magnitude s (tiny: s <= 1e-3, huge: s >= 1e3)', desc)
+                finally:
+                    CUR['desc'] = None
+        for (uname, al, be, ga, de) in PF.UNIT_SYSTEMS:
+            for route in ('focus_fixed_sampling', 'unfocus_fixed_sampling'):
+                k += 1
+                if not ctx.mine(k):
+                    continue
+                bits = 32 if (k // ctx.nshards) % 5 == 4 else 64
+                single = bits == 32
+                m = int(rng.integers(2, ctx.pick(10, 24)))
+                M = int(rng.integers(2, ctx.pick(12, 28)))
+                seed = ctx.subseed(rng)
+                a = make_input((m, m), True, seed, bits=bits)
+                method = ('mdft', 'czt')[int(rng.integers(2))]
+                pname, s = PF.SHIFT_PATTERNS[int(rng.integers(len(PF.SHIFT_PATTERNS)))]
+                wvl, efl, dxi = [0.5, 0.6328, 1.55][int(rng.integers(3))], [50., 100., 250.][int(rng.integers(3))], [0.1, 0.05, 1.0][int(rng.integers(3))]
+                Qt = [1, 2, 1.5, 3.3, round(float(rng.uniform(0.7, 4)), 3)][int(rng.integers(5))]
+                dxo = wvl * efl / (m * dxi) / Qt
+                via = ('function', 'Wavefront')[int(rng.integers(2))]
+                desc = {'wl': 'units', 'route': route, 'units': uname, 'in': (m, m), 'out': (M, M), 'method': method, 'wvl': wvl, 'efl': efl, 'input_dx': dxi, 'output_dx': dxo,
+                        'shift_samples': s, 'via': via, 'precision': bits, 'seed': seed, 'class': f'units:{route}:{method}:{uname}:shift={pname}:{via}:p{bits}'}
+                ctx.case(desc, nontrivial=nontrivial(a))
+                CUR['desc'] = desc
+                try:
+                    with precision(bits), ctx.guard(f'C01/{route}/scale:units', desc, what=f'{route} in the unit system {uname}'):
+                        def call(dxi_, efl_, wvl_, dxo_):
+                            shift = _typed_shift(s, dxo_)
+                            if via == 'function':
+                                return np.array(getattr(P, route)(a, dxi_, efl_, wvl_, dxo_, M, shift=shift, method=method), copy=True)
+                            w = P.Wavefront(a, wvl_, dxi_, space='pupil' if route.startswith('focus') else 'psf')
+                            return np.array(getattr(w, route)(efl_, dxo_, M, shift=shift, method=method).data, copy=True)
+                        r1, r2 = call(dxi, efl, wvl, dxo), call(dxi * al, efl * be, wvl * ga, dxo * de)
+                        r = rtol_for(method, single, (m, m), (Qt, Qt), (M, M), (float(s[0]), float(s[1])))
+                        if r is None:
+                            ctx.skip('engine: kernel phase beyond the resolution of the working precision (ill-conditioned, tolerance would exceed 3e-2)')
+                            continue
+                        _law_close(ctx, 'scale.unit-invariance', r2, r1, r, err_scale(a, (Qt, Qt)), f'C01/{route}/scale:units/result-changes-under-a-consistent-change-of-units',
+                                   f'{route}: the same propagation expressed in other consistent units (lambda f / (dx_in dx_out) and shift / dx_out unchanged) gives another field', desc)
+                finally:
+                    CUR['desc'] = None
+        fttools.mdft.clear()
+        fttools.czt.clear()
+
+
+def wl_special_Q(ctx, rng):
+    """Class H: Q exactly an integer, the output sample count equal to the input shape or to Q times it, every shift pattern --
+    engines (both directions), wrappers at exactly the FFT spacing (function / Wavefront), and the padded-FFT route; each call is
+    judged by the contracts, and without a shift the three routes must agree as complex arrays."""
+    from prysm import fttools, propagation as P
+    from .. import propforms as PF
+    from ..util import precision
+    sizes = list(range(1, ctx.pick(13, 25))) + [17, 19, 23, 29, 31] + ctx.pick([], [37, 41, 64, 67])
+    k = -1
+    for rep in range(ctx.pick(1, 20)):
+        for N in sizes:
+            for q in (1, 2, 3):
+                for ocls in ('same-as-input', 'fft-grid'):
+                    for fwd in (True, False):
+                        k += 1
+                        if not ctx.mine(k):
+                            continue
+                        if (k // ctx.nshards) % 64 == 63:
+                            fttools.mdft.clear()
+                            fttools.czt.clear()
+                        nonsq = (k // ctx.nshards) % 4 == 3 and N > 1
+                        shp = (N, N) if not nonsq else (N, max(1, N - 1 - int(rng.integers(0, 3))))
+                        out = shp if ocls == 'same-as-input' else (shp[0] * q, shp[1] * q)
+                        bits = 32 if (k // ctx.nshards) % 7 == 6 else 64
+                        single = bits == 32
+                        seed = ctx.subseed(rng)
+                        a = make_input(shp, bool(rng.integers(2)), seed, bits=bits)
+                        g = PF.exact_Q_geometry(rng, N, q) if not nonsq else None
+                        base = {'wl': 'special-Q', 'in': shp, 'out': out, 'Q': q, 'fwd': fwd, 'precision': bits, 'seed': seed}
+                        ctx.case(dict(base, **{'class': f'special-Q:Q=={q}:{ocls}:{shape_kind(shp)}:{"fwd" if fwd else "inv"}:p{bits}'}), nontrivial=nontrivial(a))
+                        if not nontrivial(a):
+                            continue
+                        unshifted = {}
+                        with precision(bits):
+                            for pname, s in PF.SHIFT_PATTERNS:
+                                for method in ('mdft', 'czt'):
+                                    desc = dict(base, method=method, shift=s, **{'class': f'special-Q:engine:{method}:Q=={q}:{ocls}:shift={pname}'})
+                                    ctx.observe('special.fft-grid-with-shift')
+                                    CUR['desc'] = desc
+                                    try:
+                                        with ctx.guard(f'C01/{method}/shift:{shift_class(s)}', desc, what=f'{method} transform of an in-domain input'):
+                                            Qarg = [q, float(q), (q, q), (float(q), float(q))][(k + len(pname)) % 4]
+                                            r = _engine(method, fwd)(a, Qarg, out if (k % 2 or out[0] != out[1]) else out[0], s)
+                                            if pname == 'none':
+                                                unshifted[method] = np.array(r, copy=True)
+                                        if g is not None:
+                                            # the wrappers at exactly the FFT spacing: the library's own Q_for_sampling gives q exactly
+                                            wvl, efl, idx, odx = g
+                                            if P.Q_for_sampling(N * idx, efl, wvl, odx) != q:
+                                                ctx.skip('special: the library\'s own Q is not exactly the integer for this draw')
+                                            else:
+                                                route = 'focus_fixed_sampling' if fwd else 'unfocus_fixed_sampling'
+                                                d2 = dict(desc, route=route, wavelength=wvl, efl=efl, input_dx=idx, output_dx=odx)
+                                                CUR['desc'] = d2
+                                                with ctx.guard(f'C01/{method}/shift:{shift_class(s)}', d2, what=f'{route}(method={method}) at exactly the FFT spacing'):
+                                                    shift = _typed_shift(s, odx)
+                                                    if (k + len(pname)) % 2:
+                                                        rw = getattr(P, route)(a, idx, efl, wvl, odx, out, shift=shift, method=method)
+                                                    else:
+                                                        w = P.Wavefront(a, wvl, idx, space='pupil' if fwd else 'psf')
+                                                        rw = getattr(w, route)(efl, odx, out, shift=shift, method=method).data
+                                                    if pname == 'none':
+                                                        unshifted[method + '/wrapper'] = np.array(rw, copy=True)
+                                                    # the wrapper (function or Wavefront form) at exactly the FFT spacing is the engine call with Q = q and the
+                                                    # shift in samples: the same arithmetic, so the same array (the contract only sees the module-level function)
+                                                    rt = rtol_for(method, single or (method == 'mdft' and bits == 32), shp, (float(q), float(q)), out, (float(s[0]), float(s[1])))
+                                                    if rt is not None:
+                                                        _law_close(ctx, 'special.fft-grid-with-shift', rw, r, rt, err_scale(a.astype(np.complex128), (float(q), float(q))),
+                                                                   f'C01/{route}/special:output-grid-is-the-FFT-grid/differs-from-the-engine-call/shift:{shift_class(s)}',
+                                                                   f'{route}(method={method}) (function / Wavefront form) with output_dx exactly the FFT spacing and output_samples '
+                                                                   'the FFT grid or the input shape differs from the engine call with Q = q and the same shift in samples', d2)
+                                    finally:
+                                        CUR['desc'] = None
+                            # the padded-FFT route on the same array; agreement of the routes (complex) where the grids coincide
+                            desc = dict(base, **{'class': f'special-Q:routes-agree:Q=={q}:{ocls}'})
+                            CUR['desc'] = desc
+                            try:
+                                with ctx.guard('C01/fft-route', desc):
+                                    rf = np.array((P.focus if fwd else P.unfocus)(a, q), copy=True)
+                                if rf.shape == (math.ceil(shp[0] * q), math.ceil(shp[1] * q)):
+                                    # the engines' output of `out` samples is the central window of the padded-FFT grid (origin on origin)
+                                    o0, o1 = rf.shape[0] // 2 - out[0] // 2, rf.shape[1] // 2 - out[1] // 2
+                                    rf = rf[o0:o0 + out[0], o1:o1 + out[1]]
+                                    sc = err_scale(a.astype(np.complex128), (float(q), float(q)))
+                                    for name, r in unshifted.items():
+                                        eng = name.split('/')[0]
+                                        rt = rtol_for(eng, single or (eng == 'mdft' and bits == 32), shp, (float(q), float(q)), out, (0.0, 0.0))
+                                        if rt is None:
+                                            continue
+                                        _law_close(ctx, 'special.integer-Q-routes-agree', r, rf, rt, sc, f'C01/special:integer-Q/{name}-differs-from-the-padded-FFT',
+                                                   f'{"forward" if fwd else "inverse"} transform with Q exactly {q} onto the FFT grid: {name} and the padded-FFT route differ '
+                                                   '(each is also judged against the textbook sum by its contract)', dict(desc, route=name))
+                            finally:
+                                CUR['desc'] = None
+    fttools.mdft.clear()
+    fttools.czt.clear()
+
+
+def wl_sizes(ctx, rng):
+    """Class I: thin arrays whose long axis has 65 ... 1024 samples through every route: band-complete pairs n -> M with M / n within
+    1e-3 of an integer, prime / awkward / power-of-two lengths, with and without a shift along the long axis."""
+    from prysm import fttools, propagation as P
+    from .. import propforms as PF
+    jobs = [('near-integer-Q', nn, MM) for (nn, MM) in PF.NEAR_INTEGER_PAIRS[:ctx.pick(5, 8)]]
+    jobs += [('awkward', nn, [nn, nn + 1, 2 * nn, 97][i % 4]) for i, nn in enumerate(PF.AWKWARD_SIZES + PF.LARGE_SIZES[:ctx.pick(2, 5)])]
+    if not ctx.quick:
+        g = np.random.default_rng([ctx.seed, 4321])
+        jobs += [('random', int(g.integers(64, 1100)), int(g.integers(64, 1300))) for _ in range(200)]
+    k = -1
+    for ji, (kind, nn, MM) in enumerate(jobs):
+        for method in ('mdft', 'czt'):
+            for fwd in (True, False):
+                for shifted in (False, True):
+                    k += 1
+                    if not ctx.mine(k):
+                        continue
+                    if ctx.quick and kind == 'near-integer-Q' and shifted and not fwd:
+                        continue
+                    shp = PF.thin(nn, ji + (k // ctx.nshards))
+                    out = tuple(MM if v == nn else v for v in shp)
+                    along_x = shp[1] == nn
+                    Qv = (out[0] / shp[0], out[1] / shp[1]) if kind == 'near-integer-Q' else pick_Q(Q_KINDS[k % 3], rng)
+                    s = (0, 0) if not shifted else ((2.5, 0) if along_x else (0.0, -3))
+                    seed = ctx.subseed(rng)
+                    a = make_input(shp, True, seed)
+                    desc = {'wl': 'sizes', 'kind': kind, 'in': shp, 'out': out, 'Q': Qv, 'shift': s, 'fwd': fwd, 'method': method, 'seed': seed,
+                            'class': f'sizes:{kind}:{method}:{shape_kind(shp)}:{"x" if along_x else "y"}-axis:{"shifted" if shifted else "unshifted"}'}
+                    ctx.case(desc)
+                    ctx.observe('size.large-or-prime')
+                    drive_engine(ctx, method, fwd, a, Qv, out, s, desc)
+                    fttools.mdft.clear()
+                    fttools.czt.clear()
+    # the padded-FFT route and the wrappers (square, so that the physical-Q contract applies) at prime / awkward sizes
+    k = -1
+    for N in (65, 67, 74, 101) + ctx.pick((), (127, 129, 257)):
+        for what in ('fft-thin', 'fft-square', 'wrapper'):
+            for fwd in (True, False):
+                k += 1
+                if not ctx.mine(k):
+                    continue
+                seed = ctx.subseed(rng)
+                desc = {'wl': 'sizes', 'what': what, 'N': N, 'fwd': fwd, 'seed': seed, 'class': f'sizes:{what}:{N}:{"fwd" if fwd else "inv"}'}
+                ctx.case(desc)
+                ctx.observe('size.large-or-prime')
+                CUR['desc'] = desc
+                try:
+                    with ctx.guard('C01/fft-route' if what != 'wrapper' else 'C01/mdft/shift:frac', desc):
+                        if what == 'fft-thin':
+                            big = [509, 521, 1021, 1024, 640, 997, 257][k % 7]
+                            for Q in (1, 2, 1.5):
+                                (P.focus if fwd else P.unfocus)(make_input(PF.thin(big if Q == 1 else N, k), True, seed), Q)
+                        elif what == 'fft-square':
+                            (P.focus if fwd else P.unfocus)(make_input((N, N), True, seed), [1, 2, 1.5][k % 3] if N < 100 else 1)
+                        else:
+                            wvl, efl, dxi = 0.55, 100., 0.1
+                            M = [N, N + 1, 97][k % 3]
+                            dxo = wvl * efl / (N * dxi) / [1, 2, 1.5][k % 3]
+                            f = P.focus_fixed_sampling if fwd else P.unfocus_fixed_sampling
+                            f(make_input((N, N), True, seed), dxi, efl, wvl, dxo, M, shift=(0.0, 1.5 * dxo), method=('mdft', 'czt')[(k // 2) % 2])
+                finally:
+                    CUR['desc'] = None
+                    fttools.mdft.clear()
+                    fttools.czt.clear()
+
+
 # ------------------------------------------------------------------------------------------ entry points
 def run(ctx):
     global CTX
@@ -1790,6 +2104,9 @@ def run(ctx):
         timed('foreign', wl_foreign, ctx, ctx.rng('c01-foreign'))
         timed('random', wl_random, ctx, ctx.rng('c01-random'))
         timed('float32', wl_float32, ctx, ctx.rng('c01-f32'))
+        timed('scales-units', wl_scales_units, ctx, ctx.rng('c01-scales'))
+        timed('special-Q', wl_special_Q, ctx, ctx.rng('c01-special-Q'))
+        timed('sizes', wl_sizes, ctx, ctx.rng('c01-sizes'))
         ctx.note('workload_seconds(first shard)', secs)
         ctx.note('largest_error_over_tolerance_among_held_comparisons(first shard)', {k: float(f'{v:.2e}') for k, v in sorted(STATS.items())})
     finally:
